@@ -6,8 +6,8 @@ import RevalModel.Impl.Parser
 
 namespace Reval
 
-def descKey : Str := "description".toList
-def nameKey : Str := "name".toList
+def descKey : Str := ['d', 'e', 's', 'c', 'r', 'i', 'p', 't', 'i', 'o', 'n']
+def nameKey : Str := ['n', 'a', 'm', 'e']
 
 structure RuleOut where
   name : Str
